@@ -101,6 +101,13 @@ def run_life(ctx, prop, exe, n_random, n_regular):
     frozen_reg = run_resumable(ctx, prop, exe, "TestVerifLifeRegular$", "lifereg.impl.txt", n_regular)
     reg = []
     if os.path.exists(ctx.out + "/lifereg.impl.txt"):
+        # the `relay` line (goroutines per direction) is judged by the monitor; the model of the regular fragment does not print it
+        full = ctx.out + "/lifereg.impl.txt"
+        os.replace(full, full + ".full")
+        with open(full, "w") as f:
+            for l in open(full + ".full", errors="replace"):
+                if not l.startswith("< relay "):
+                    f.write(l)
         impl = ctx.out + "/lifereg.impl.txt"
         model = impl + ".model.txt"
         rc2, err = L.drv("model", "life", impl, model)
@@ -207,9 +214,13 @@ def replay(ctx, path, prop):
         print("REPLAY: the harness did not finish (hang or crash)")
         return 1
     L.drv("monitor", "life", t, d + "/mon.txt")
-    L.drv("model", "life", t, d + "/model.txt")
+    # the model does not print the `relay` line
+    tm = t + ".norelay"
+    with open(tm, "w") as f:
+        f.writelines(l for l in open(t, errors="replace") if not l.startswith("< relay "))
+    L.drv("model", "life", tm, d + "/model.txt")
     mon = open(d + "/mon.txt").read()
     print(mon)
-    hit = any(l.startswith("! " + prop) for l in mon.split("\n")) or "# end leak" in open(t).read() or bool(L.diff_cases(t, d + "/model.txt")) and "task" not in " ".join(ops)
+    hit = any(l.startswith("! " + prop) for l in mon.split("\n")) or "# end leak" in open(t).read() or bool(L.diff_cases(tm, d + "/model.txt")) and "task" not in " ".join(ops)
     print("REPLAY: %s" % ("the violation reproduces" if hit else "no violation"))
     return 1 if hit else 0
